@@ -5,6 +5,7 @@ import Mathlib.Tactic.Ring
 import Mathlib.Tactic.FieldSimp
 import Mathlib.Algebra.BigOperators.Group.Finset.Basic
 import Mathlib.Algebra.Order.Field.Rat
+import Mathlib.Algebra.BigOperators.Group.List.Basic
 /-! Lemmas for Props/C06.lean, exact part: the frequency index map of `fourier_resample`
 (pointwise closed form of fftshift / centred crop-pad / ifftshift), slices that undo a pad. -/
 namespace QuantemModel.Resample
@@ -364,5 +365,202 @@ theorem crop_slice_of_pad (b n e : Nat) :
     constructor
     · omega
     · split_ifs <;> omega
+
+
+/-! ### N-D: pad then crop, arrays as builds of their accessor -/
+
+theorem range_blocks (n P : Nat) :
+    (List.range n).flatMap (fun i => (List.range P).map (fun q => i * P + q)) = List.range (n * P) := by
+  induction n with
+  | zero => simp
+  | succ k ih =>
+    rw [List.range_succ, List.flatMap_append, ih, Nat.succ_mul, List.range_add]
+    simp
+
+theorem map_ravel_allIdx : ∀ s : List Nat, (allIdx s).map (ravel s) = List.range (prod s)
+  | [] => by simp [allIdx, ravel, prod]
+  | n :: r => by
+    have ih := map_ravel_allIdx r
+    simp only [allIdx, prod, List.map_flatMap, List.map_map]
+    rw [← range_blocks n (prod r)]
+    congr 1
+    funext i
+    have : (ravel (n :: r) ∘ fun x => i :: x) = (fun q => i * prod r + q) ∘ ravel r := by
+      funext x; simp [ravel]
+    rw [this, ← List.map_map, ih]
+
+/-- a well-formed array is the `build` of its own accessor -/
+theorem build_get_self {α : Type} [Inhabited α] (a : Arr α) (h : a.data.length = prod a.shape) :
+    build a.shape a.get = a := by
+  cases a with
+  | mk shape data =>
+    simp only [build, Arr.get] at *
+    congr 1
+    have : (allIdx shape).map (fun j => data.getD (ravel shape j) default)
+        = ((allIdx shape).map (ravel shape)).map (fun k => data.getD k default) := by
+      rw [List.map_map]; rfl
+    have e0 : (⟨shape, data⟩ : Arr α).get = fun j => data.getD (ravel shape j) default := by
+      funext j; rfl
+    rw [e0, this, map_ravel_allIdx, ← h]
+    apply List.ext_getElem?
+    intro i
+    simp only [List.getElem?_map, List.getElem?_range]
+    by_cases hi : i < data.length
+    · simp [hi, List.getD_eq_getElem?_getD]
+    · simp [hi]
+
+theorem build_congr {α : Type} (s : List Nat) (f g : List Nat → α) (h : ∀ j, InBox s j → f j = g j) :
+    build s f = build s g := by
+  unfold build
+  congr 1
+  apply List.map_congr_left
+  intro j hj
+  exact h j (mem_allIdx.mp hj)
+
+theorem idxOf_range {L ax : Nat} (h : ax < L) : (List.range L).idxOf ax = ax := by
+  have := (List.nodup_range (n := L)).idxOf_getElem ax (by simpa using h)
+  simpa using this
+
+/-- with the identity axis order, `srcIdx` reads axis by axis -/
+theorem srcIdx_range (sels : List Sel) (j : List Nat) (hj : j.length = sels.length) :
+    srcIdx sels (List.range sels.length) j = List.zipWith Sel.at sels j := by
+  unfold srcIdx
+  apply List.ext_getElem
+  · simp [hj]
+  · intro i h1 h2
+    have hi : i < sels.length := by simpa using h1
+    simp only [List.getElem_map, List.getElem_range, List.getElem_zipWith]
+    rw [idxOf_range hi]
+    simp [List.getD_eq_getElem?_getD, hi, hj ▸ hi]
+
+/-- the explicit plan of `crop(((before, -after), …))` on an array padded by `w` (what `plan`
+computes from `cropItems`, axis by axis, by `crop_slice_of_pad`) -/
+def padCropPlan (shape : List Nat) (w : List (Nat × Nat)) : Plan :=
+  ⟨List.replicate shape.length Item.full,
+   List.zipWith (fun n (p : Nat × Nat) => Sel.rng (p.1 : Int) 1 n) shape w,
+   List.range shape.length⟩
+
+theorem padCrop_zip : ∀ (shape : List Nat) (w : List (Nat × Nat)) (j : List Nat),
+    w.length = shape.length → InBox shape j →
+    InBox (padShape shape w)
+      (List.zipWith Sel.at (List.zipWith (fun n (p : Nat × Nat) => Sel.rng (p.1 : Int) 1 n) shape w) j) ∧
+    padSrc shape w
+      (List.zipWith Sel.at (List.zipWith (fun n (p : Nat × Nat) => Sel.rng (p.1 : Int) 1 n) shape w) j) = some j
+  | [], [], [], _, _ => by simp [padShape, InBox, padSrc]
+  | n :: ns, (b, e) :: ws, i :: j, hl, hj => by
+    simp only [InBox] at hj
+    have ih := padCrop_zip ns ws j (by simpa using hl) hj.2
+    have hat : (Sel.rng (b : Int) 1 n).at i = b + i := by simp only [Sel.at]; omega
+    simp only [List.zipWith_cons_cons, padShape, InBox, padSrc, hat]
+    refine ⟨⟨by omega, ih.1⟩, ?_⟩
+    rw [if_pos (by omega)]
+    rw [ih.2]
+    simp
+  | [], _ :: _, _, hl, _ => by simp at hl
+  | _ :: _, [], _, hl, _ => by simp at hl
+  | [], [], _ :: _, _, hj => by simp [InBox] at hj
+  | _ :: _, _ :: _, [], _, hj => by simp [InBox] at hj
+
+/-- **pad then crop the pad widths = identity (N-D)** -/
+theorem pad_crop_nd {α : Type} [Inhabited α] (z : α) (a : Arr α) (w : List (Nat × Nat))
+    (hw : w.length = a.shape.length) (ha : a.data.length = prod a.shape) :
+    applyPlan (padNd z a w) (padCropPlan a.shape w) = a := by
+  have hsl : (padCropPlan a.shape w).sels.length = a.shape.length := by simp [padCropPlan, hw]
+  have hshape : (padCropPlan a.shape w).shape = a.shape := by
+    unfold Plan.shape padCropPlan
+    simp only
+    apply List.ext_getElem
+    · simp
+    · intro i h1 h2
+      have hi : i < a.shape.length := h2
+      have hiw : i < w.length := hw ▸ hi
+      simp [List.getD_eq_getElem?_getD, hi, hiw, Sel.len]
+  unfold applyPlan
+  rw [hshape]
+  have key : ∀ j, InBox a.shape j →
+      (padNd z a w).get (srcIdx (padCropPlan a.shape w).sels (padCropPlan a.shape w).order j) = a.get j := by
+    intro j hj
+    have hjl : j.length = (padCropPlan a.shape w).sels.length := by rw [hsl]; exact hj.length_eq
+    have horder : (padCropPlan a.shape w).order = List.range (padCropPlan a.shape w).sels.length := by
+      rw [hsl]; rfl
+    rw [horder, srcIdx_range _ _ hjl]
+    obtain ⟨h1, h2⟩ := padCrop_zip a.shape w j hw hj
+    unfold padNd
+    have hs : (padCropPlan a.shape w).sels
+        = List.zipWith (fun n (p : Nat × Nat) => Sel.rng (p.1 : Int) 1 n) a.shape w := rfl
+    rw [hs, build_get _ _ h1, h2]
+  rw [build_congr _ _ _ key]
+  exact build_get_self a ha
+
+/-! ### N-D: total of the block sums -/
+
+section Total
+variable {α : Type} [AddCommMonoid α]
+
+theorem sum_flatMap_map {β γ : Type} (l : List β) (f : β → List γ) (G : γ → α) :
+    ((l.flatMap f).map G).sum = (l.map fun b => ((f b).map G).sum).sum := by
+  induction l with
+  | nil => simp
+  | cons b t ih => simp [List.flatMap_cons, List.map_append, List.sum_append, ih]
+
+theorem sum_allIdx_cons (n : Nat) (r : List Nat) (G : List Nat → α) :
+    ((allIdx (n :: r)).map G).sum
+      = ((List.range n).map fun i => ((allIdx r).map fun idx => G (i :: idx)).sum).sum := by
+  simp only [allIdx]
+  rw [sum_flatMap_map]
+  simp only [List.map_map]
+  rfl
+
+theorem list_sum_comm {β γ : Type} (l : List β) (m : List γ) (F : β → γ → α) :
+    (l.map fun a => (m.map fun b => F a b).sum).sum = (m.map fun b => (l.map fun a => F a b).sum).sum := by
+  induction l with
+  | nil => simp
+  | cons a t ih =>
+    simp only [List.map_cons, List.sum_cons, ih]
+    rw [← List.sum_map_add]
+
+theorem sum_range_blocks (h : Nat → α) (nb f : Nat) :
+    ((List.range nb).map fun j => ((List.range f).map fun t => h (j * f + t)).sum).sum
+      = ((List.range (f * nb)).map h).sum := by
+  induction nb with
+  | zero => simp
+  | succ k ih =>
+    rw [List.range_succ, List.map_append, List.sum_append, ih, Nat.mul_succ, List.range_add,
+      List.map_append, List.sum_append]
+    simp only [List.map_map, List.map_cons, List.map_nil, List.sum_cons, List.sum_nil, add_zero,
+      Nat.mul_comm k f]
+    rfl
+
+/-- N-D: the block sums add up to the sum over the covered region -/
+theorem sum_bin_blocks : ∀ (shape facs : List Nat), shape.length = facs.length → ∀ (g : List Nat → α),
+    ((allIdx (binShape shape facs)).map fun j => ((allIdx facs).map fun t => g (binSrc j facs t)).sum).sum
+      = ((allIdx (coveredShape shape facs)).map g).sum
+  | [], [], _, g => by simp [binShape, coveredShape, allIdx, binSrc]
+  | n :: ns, f :: fs, hl, g => by
+    have ih := sum_bin_blocks ns fs (by simpa using hl)
+    simp only [binShape, coveredShape, List.zipWith_cons_cons]
+    rw [sum_allIdx_cons, sum_allIdx_cons]
+    rw [← sum_range_blocks (fun c => ((allIdx (List.zipWith (fun n f => f * (n / f)) ns fs)).map
+      fun idx => g (c :: idx)).sum) (n / f) f]
+    apply congrArg
+    apply List.map_congr_left
+    intro j0 _
+    -- inner: Σ_{j'} Σ_{t ∈ allIdx (f :: fs)} g (binSrc (j0 :: j') (f :: fs) t)
+    have h1 : ∀ j', ((allIdx (f :: fs)).map fun t => g (binSrc (j0 :: j') (f :: fs) t)).sum
+        = ((List.range f).map fun t0 => ((allIdx fs).map fun t' =>
+            g ((j0 * f + t0) :: binSrc j' fs t')).sum).sum := by
+      intro j'
+      rw [sum_allIdx_cons]
+      simp [binSrc]
+    simp only [h1]
+    rw [list_sum_comm]
+    apply congrArg
+    apply List.map_congr_left
+    intro t0 _
+    exact ih (fun idx => g ((j0 * f + t0) :: idx))
+  | [], _ :: _, hl, _ => by simp at hl
+  | _ :: _, [], hl, _ => by simp at hl
+
+end Total
 
 end QuantemModel.Resample
